@@ -580,6 +580,47 @@ def r11_19(run, model):
         raise AnalysisIncomplete("lower_ty: no TFunc with a params field found")
 
 
+def r11_22(run, model):
+    run.rule("R11.22", "a call keeps its callee: (a) the CallExpr arm of the lowering hands its argument list down only to callee forms that "
+                       "place arguments themselves; a closure literal - the one form that refuses handed-down arguments and can still be a "
+                       "function without parentheses - is lowered on its own and then applied; (b) a handed-down argument list is "
+                       "distinguishable from none, so that `(f)()` stays a call")
+    LOWER = "crates/ast/src/lower.rs"
+    f = model.fn("lower_expr_with_args", LOWER)
+    m = max(S.find(f.body, "Match"), key=lambda x: len(x["arms"]))
+    rejects, call_arm = set(), None
+    for arm in m["arms"]:
+        pt = S.norm_ws(run.facts.text(LOWER, arm["pat"]["sp"]))
+        kinds = re.findall(r"cst::Expr::(\w+)", pt)
+        if "CallExpr" in kinds:
+            call_arm = arm
+        for iff in S.find(arm["body"], "If"):
+            c = S.norm_ws(run.facts.text(LOWER, iff["cond"]["sp"]))
+            if re.fullmatch(r"!trailing_args\.is_empty\(\)", c) and any(x["k"] == "MethodCall" and x["method"] == "push_error" for x in S.walk(iff["then"])):
+                rejects |= set(kinds)
+    if call_arm is None:
+        raise AnalysisIncomplete("lower_expr_with_args: the arm for call expressions was not found")
+    # the callee forms lowered on their own: kinds named where the arm calls lower_expr on the callee
+    alone = set()
+    for x in S.walk(call_arm["body"]):
+        if x["k"] == "Macro" and x["name"] == "matches":
+            alone |= set(re.findall(r"cst::Expr::(\w+)", x.get("tokens") or ""))
+        if x["k"] == "Arm" and S.norm_ws(run.facts.text(LOWER, x["body"]["sp"])) == "true":
+            alone |= set(re.findall(r"cst::Expr::(\w+)", S.norm_ws(run.facts.text(LOWER, x["pat"]["sp"]))))
+        if x["k"] == "Let":
+            alone |= set(re.findall(r"cst::Expr::(\w+)", S.norm_ws(run.facts.text(LOWER, x["pat"]["sp"]))))
+    if "ClosureExpr" in rejects:
+        run.ob("R11.22", "lower_expr_with_args|a closure literal applied to arguments is lowered on its own", "ClosureExpr" in alone, site(LOWER, call_arm["sp"]),
+               f"callee forms lowered first and then applied: {sorted(alone)}; forms refusing handed-down arguments: {len(rejects)}",
+               witness="|| { step(r) }() loses its call (the AST holds a bare closure), |x: int32| { base + x }(2) is rejected with `Cannot apply "
+                       "arguments to closure expression`")
+    ps = [p_ for p_ in f.params() if not p_["self"] and p_["pat"]["k"] == "PIdent" and p_["pat"]["name"] == "trailing_args"]
+    ty = (ps[0]["ty"] or "").replace(" ", "") if ps else ""
+    run.ob("R11.22", "lower_expr_with_args|an empty argument list handed down is still a call", bool(ps) and ("Option<" in ty), site(LOWER, f.node["sp"]),
+           f"trailing_args: {ty or '?'}; the arms test `.is_empty()` to decide whether there is a call at all",
+           witness="let a = (f)(); binds the function f, not its result; `5()` is read as `5`")
+
+
 def r11_21(run, model):
     run.rule("R11.21", "arguments that reach the lowering of `lhs . rhs` are applied to its result: every arm of the match on the right operand "
                        "that yields a node either uses `trailing_args` or reports an error - `(t.0)(5)` hands its argument list down to the "
@@ -646,4 +687,8 @@ def run(run, model):
     run.try_rule(r11_19, model)
     run.try_rule(r11_20, model)
     run.try_rule(r11_21, model)
+    run.try_rule(r11_22, model)
+    # the grammar's look-ahead sees the same tokens as its cursor: a comment between two tokens changes no decision (shared with C12 R12.10)
+    from rules import c12 as _c12
+    run.try_rule(_c12.r12_10, model)
     run.assume("documented precedence order is the one in the property statement (constant oracle)")
